@@ -17,7 +17,10 @@ def parseES (tok : String) : Option ES :=
   match tok.splitOn "|" with
   | [i, l, t] => do
     let id ← unesc i; let lv ← l.toNat?; let tm ← t.toInt?
-    pure { id := id, level := lv, time := tm }
+    pure { id := id, level := lv, time := { time := tm } }
+  | [i, l, t, d, m, x] => do     -- duration / message / details are printed only when one of them is not empty
+    let id ← unesc i; let lv ← l.toNat?; let tm ← t.toInt?
+    pure { id := id, level := lv, time := { time := tm, duration := ← d.toInt?, message := ← unesc m, details := ← unesc x } }
   | _ => none
 
 def parseDump (tok : String) : Option Dump :=
@@ -37,7 +40,18 @@ def canon (d : Dump) : Dump := sortTopics (d.map fun (T, es) => (T, sortES es))
 /-- canonical form of a handler log dump (entries keep their order) -/
 def canonLog (d : Dump) : Dump := sortTopics d
 
-def renderES (e : ES) : String := s!"{esc e.id}|{e.level}|{e.time}"
+def renderES (e : ES) : String :=
+  if e.time.duration == 0 && e.time.message.isEmpty && e.time.details.isEmpty then s!"{esc e.id}|{e.level}|{e.time.time}"
+  else s!"{esc e.id}|{e.level}|{e.time.time}|{e.time.duration}|{esc e.time.message}|{esc e.time.details}"
+
+/-- the state of an id in a dump, whole -/
+def stOf (d : Dump) : String → String → Option ES := fun T id =>
+  match d.find? (·.1 == T) with
+  | some (_, es) => es.find? (·.id == id)
+  | none => none
+
+/-- a dump reduced to what the node-level model computes (id, level, time) -/
+def proj (d : Dump) : Dump := d.map fun (T, es) => (T, es.map fun e => { e with time := { time := e.time.time } })
 def renderDump (d : Dump) : String :=
   if d.isEmpty then "-" else
   ";".intercalate (d.map fun (T, es) => esc T ++ "=" ++ (if es.isEmpty then "-" else ",".intercalate (es.map renderES)))
@@ -95,8 +109,12 @@ def parseMode (ts : List String) : Option Mode :=
 
 def parseOp (ts : List String) : Option Op :=
   match ts with
-  | ["collect", T, i, l, t] => do pure (.collect (← unesc T) (← unesc i) (← l.toNat?) (← t.toInt?))
-  | ["update", T, i, l, t] => do pure (.update (← unesc T) (← unesc i) (← l.toNat?) (← t.toInt?))
+  | ["collect", T, i, l, t] => do pure (.collect (← unesc T) (← unesc i) (← l.toNat?) { time := ← t.toInt? })
+  | ["update", T, i, l, t] => do pure (.update (← unesc T) (← unesc i) (← l.toNat?) { time := ← t.toInt? })
+  | ["collect", T, i, l, t, d, m, x] => do
+    pure (.collect (← unesc T) (← unesc i) (← l.toNat?) { time := ← t.toInt?, duration := ← d.toInt?, message := ← unesc m, details := ← unesc x })
+  | ["update", T, i, l, t, d, m, x] => do
+    pure (.update (← unesc T) (← unesc i) (← l.toNat?) { time := ← t.toInt?, duration := ← d.toInt?, message := ← unesc m, details := ← unesc x })
   | ["close", T] => do pure (.closeTopic (← unesc T))
   | ["restore", T] => do pure (.restoreTopic (← unesc T))
   | ["deltopic", T] => do pure (.deleteTopic (← unesc T))
@@ -104,7 +122,8 @@ def parseOp (ts : List String) : Option Op :=
 
 def parseNOp (ts : List String) : Option NOp :=
   match ts with
-  | ["point", i, l, t] => do pure (.point (← unesc i) (← l.toNat?) (← t.toInt?))
+  | ["point", i, l, t] => do pure (.point (← unesc i) (← l.toNat?) { time := ← t.toInt? })
+  | ["point", i, l, t, _note] => do pure (.point (← unesc i) (← l.toNat?) { time := ← t.toInt? })   -- the note tag only feeds the message template
   | ["taskrestart"] => some .taskRestart
   | _ => none
 
@@ -201,6 +220,12 @@ def judgeSvcCrash (topics ids : List String) (fops : List FOp) (unint : Option D
     throw (.specfail "disk-tracks-last-non-ok" s!"{what}: {showKeys badDisk} rdisk {renderDump rdisk} fdisk {renderDump fdisk}")
   if !levelsAre (lvOf resume) rec_ keys then
     throw (.specfail "resume-level" s!"{what}: resumed {renderDump resume}")
+  -- every state shown — on disk and in memory, right after the restart and at the end — is the state last
+  -- recorded for that id, in ALL its fields (level, time, duration, message, details)
+  if !statesOK (stOf rdisk) rec_ keys || !statesOK (stOf resume) rec_ keys || !statesOK (stOf fdisk) survDisk keys then
+    throw (.specfail "final-state-equals-uninterrupted" s!"{what}: a stored/resumed state is not the state last recorded: resume {renderDump resume} rdisk {renderDump rdisk} fdisk {renderDump fdisk}")
+  if !anyFail && !statesOK (stOf final) survMem keys then
+    throw (.specfail "final-state-equals-uninterrupted" s!"{what}: final {renderDump final}")
   let live := keys.filter fun (T, _) => !dormant survMem T
   let expectFinal : Lv := match cs.length == 1 && lastDone && !anyFail, unint with
     | true, some u => lvOf u
@@ -277,6 +302,8 @@ def judgeSvc (topics : List String) (lines : Array String) : Verdict := Id.run d
       -- running service is ahead of its disk, which only matters at the next restart)
       let badM := keys.filter fun (T, i) => !dormant ops T && lvOf mem T i != lastLevel ops T i
       if !badM.isEmpty && !fops.any (fun f => f.2 != 0) then return .specfail "same-final-state" s!"uninterrupted: memory of {showKeys badM} is not the last level: {renderDump mem}"
+      if !statesOK (stOf disk) eff keys || (!fops.any (fun f => f.2 != 0) && !statesOK (stOf mem) ops keys) then
+        return .specfail "final-state-equals-uninterrupted" s!"uninterrupted: a state shown is not the state last recorded (all fields): mem {renderDump mem} disk {renderDump disk}"
       match cmpDumps "uninterrupted" [("mem", mem, dumpOfStore s.mem topics ids'), ("disk", disk, dumpOfStore s.disk topics ids'),
                                       ("told", told, dumpOfTold s.told topics)] with
       | some d => acc := acc.mismatch d
@@ -354,7 +381,7 @@ def nodeOpBranches (cfg : Cfg) (w : World) (op : NOp) : List String :=
         (if a.isSome && n.isSome then "restore-anon-wins" else "restore-named-to-anon"),
        if emits cfg cur l then "emit" else if cfg.sco && cur == l then "suppressed-unchanged" else if cfg.noRec && l == 0 && cur != 0 then "suppressed-norecovery" else "quiet-ok"]
 
-def judgeNodeCrash (cfg : Cfg) (topics ids : List String) (ops : List NOp) (unint : Option Dump)
+def judgeNodeCrash (cfg : Cfg) (topics ids : List String) (ops : List NOp) (unint : Option (Dump × Dump))
     (cs : List (Nat × Nat × Bool)) (what : String) (obs : List String) (acc : Acc) : Except Verdict Acc := do
   -- walk the crash points on the model
   let mut w : World := {}
@@ -419,15 +446,26 @@ def judgeNodeCrash (cfg : Cfg) (topics ids : List String) (ops : List NOp) (unin
   if !present then return acc.mismatch s!"{what}: the implementation had a transaction the model does not have"
   let r0 := w
   let r := nrun cfg r0 remaining
-  let resume := canon (sec ss "resume"); let rdisk := canon (sec ss "rdisk")
-  let final := canon (sec ss "final"); let fdisk := canon (sec ss "fdisk")
-  let toldb := canonLog (sec ss "toldb"); let tolda := canonLog (sec ss "tolda")
+  -- whole states as observed (…F), and their (id, level, time) part, which is what the node-level model computes
+  let resumeF := canon (sec ss "resume"); let rdiskF := canon (sec ss "rdisk")
+  let finalF := canon (sec ss "final"); let fdiskF := canon (sec ss "fdisk")
+  let resume := proj resumeF; let rdisk := proj rdiskF
+  let final := proj finalF; let fdisk := proj fdiskF
+  let toldb := canonLog (proj (sec ss "toldb")); let tolda := canonLog (proj (sec ss "tolda"))
   let ids := dedup (ids ++ idsOf resume ++ idsOf rdisk ++ idsOf final ++ idsOf fdisk)
   let keys := keysOf topics ids
   -- 1. the property on the observed output
   -- after a restart the memory is what the disk says
   let badLoad := keys.filter fun (T, i) => lvOf resume T i != lvOf rdisk T i
   if !badLoad.isEmpty then throw (.specfail "resume-level" s!"{what}: memory after restart differs from disk at {showKeys badLoad}")
+  -- … and it is the WHOLE stored state (level, time, duration, message, details) of that id, nobody else's
+  let badWhole := keys.filter fun (T, i) => stOf resumeF T i != stOf rdiskF T i
+  if !badWhole.isEmpty then
+    throw (.specfail "final-state-equals-uninterrupted" s!"{what}: the state resumed for {showKeys badWhole} is not the state stored for it: resume {renderDump resumeF} disk {renderDump rdiskF}")
+  -- at the end memory and bucket hold the same whole state for every id that is not OK
+  let badEnd := keys.filter fun (T, i) => lvOf fdisk T i != 0 && stOf finalF T i != stOf fdiskF T i
+  if !badEnd.isEmpty then
+    throw (.specfail "final-state-equals-uninterrupted" s!"{what}: memory and bucket disagree on {showKeys badEnd}: final {renderDump finalF} fdisk {renderDump fdiskF}")
   let toldBefore := evsOf toldb
   if allDone then
     -- every crash fell after a completed point: every id resumes, on every topic of the node, at the level the
@@ -437,9 +475,15 @@ def judgeNodeCrash (cfg : Cfg) (topics ids : List String) (ops : List NOp) (unin
       lvOf resume T i != nodeLevel cfg.noRec processed i || lvOf final T i != nodeLevel cfg.noRec allOps i
     if !badR.isEmpty then throw (.specfail "resume-level" s!"{what}: {showKeys badR} resumed {renderDump resume} final {renderDump final} told {renderDump toldb}")
     match unint with
-    | some u =>
-      if !finalOK (lvOf final) (lvOf u) keys then
+    | some (u, ud) =>
+      if !finalOK (lvOf final) (lvOf (proj u)) keys then
         throw (.specfail "same-final-state" s!"{what}: final {renderDump final} uninterrupted {renderDump u}")
+      -- the same final topic state as the uninterrupted run in ALL fields, in memory and as persisted (without
+      -- `.noRecoveries()`: a recovery the node kept quiet restarts its duration clock, the restored state does not)
+      if !cfg.noRec then
+        let badF := keys.filter fun (T, i) => lvOf final T i != 0 && (stOf finalF T i != stOf u T i || stOf fdiskF T i != stOf ud T i)
+        if !badF.isEmpty then
+          throw (.specfail "final-state-equals-uninterrupted" s!"{what}: {showKeys badF} final {renderDump finalF} fdisk {renderDump fdiskF} uninterrupted {renderDump u} / {renderDump ud}")
     | none => pure ()
   let told := toldBefore ++ evsOf tolda
   let badH := keys.filter fun (T, i) => lastTold told T i != lvOf final T i
@@ -494,7 +538,7 @@ def judgeNode (cfg : Cfg) (lines : Array String) : Verdict := Id.run do
   let topics := cfg.anon.toList ++ cfg.named.toList
   let mut ops : List NOp := []
   let mut acc : Acc := {}
-  let mut unint : Option Dump := none
+  let mut unint : Option (Dump × Dump) := none
   let mut ids : List String := []
   for l in lines do
     let (opT, obs) := splitObs (tokens l)
@@ -503,9 +547,14 @@ def judgeNode (cfg : Cfg) (lines : Array String) : Verdict := Id.run do
     | ["uninterrupted"] =>
       let some ss := sections obs | return .mismatch "uninterrupted: unparsable observation"
       let w := nrun cfg {} ops
-      let mem := canon (sec ss "mem"); let disk := canon (sec ss "disk"); let told := canonLog (sec ss "told")
+      let memF := canon (sec ss "mem"); let diskF := canon (sec ss "disk")
+      let mem := proj memF; let disk := proj diskF; let told := canonLog (proj (sec ss "told"))
       let ids' := dedup (ids ++ idsOf mem ++ idsOf disk)
       let keys := keysOf topics ids'
+      -- memory and bucket hold the same WHOLE state for every id that is not OK (also after graceful task restarts,
+      -- which reload the anonymous topic from its bucket)
+      let badW := keys.filter fun (T, i) => lvOf disk T i != 0 && stOf memF T i != stOf diskF T i
+      if !badW.isEmpty then return .specfail "final-state-equals-uninterrupted" s!"uninterrupted: memory and bucket disagree on {showKeys badW}: mem {renderDump memF} disk {renderDump diskF}"
       -- uninterrupted run: what is on disk is the last announced level, and nothing is recorded for an id that is OK
       let bad := keys.filter fun (T, i) => lvOf disk T i != lastTold (evsOf told) T i || (presentIn disk T i && lvOf disk T i == 0) ||
         lvOf disk T i != nodeLevel cfg.noRec ops i || lvOf mem T i != nodeLevel cfg.noRec ops i
@@ -514,7 +563,7 @@ def judgeNode (cfg : Cfg) (lines : Array String) : Verdict := Id.run do
                                       ("told", told, dumpOfTold w.svc.told topics)] with
       | some d => acc := acc.mismatch d
       | none => pure ()
-      unint := some mem
+      unint := some (memF, diskF)
     | "crash" :: _ | "crash2" :: _ =>
       let some cs := parseCrash opT | return .badop l
       match judgeNodeCrash cfg topics ids ops unint cs (" ".intercalate opT) obs acc with
